@@ -107,6 +107,12 @@ def corr_covariance(res, tier, rng):
         case = cases.physical_case(rng, tier, coupling_kind="diag")
         d, n = case["d"], case["n"]
         v, vk = structured_unitary(rng, d)
+        if i == 0:
+            # always present: decay channels with complex Lindblad operators, a complex (Haar)
+            # change of basis
+            while not case["system"].lindblad_operators:
+                case["system"], case["desc"]["system"] = cases.rand_system(rng, d)
+            v, vk = cases.rand_unitary(rng, d), "haar"
         unique = bool(i % 2)           # both degeneracy settings see rotated bases
         t0 = cases.make_tempo(case, unique=unique)
         rot = dict(case)
@@ -186,6 +192,10 @@ def search(res):
         case = cases.physical_case(rng, "quick", coupling_kind=rng.choice(["diag", "diag-degenerate"]),
                                    time_dependent=False)
         d = case["d"]
+        if i < 2:
+            while not case["system"].lindblad_operators:
+                case["system"], case["desc"]["system"] = cases.rand_system(rng, d, time_dependent=False)
+            case["desc"]["lindblad_operators"] = len(case["system"].lindblad_operators)
         v = cases.rand_unitary(rng, d)
         s = case["system"]
         if not isinstance(s, oqupy.System):
